@@ -341,3 +341,116 @@ func (rn *runner) versionSweep() {
 		}
 	}
 }
+
+// ---- list shapes: every list-valued extension of a valid TLS 1.3 hello with 0, 1, 2 (and some 3)
+// entries drawn from {GREASE, two real values, an unregistered value}, all sequences; the fingerprinted
+// spec must be usable (ApplyPreset + BuildHandshakeState under recover) ----
+
+func u16list(vals []uint16) []byte {
+	var b []byte
+	for _, v := range vals {
+		b = append(b, byte(v>>8), byte(v))
+	}
+	return b
+}
+
+func vec16(b []byte) []byte { return append([]byte{byte(len(b) >> 8), byte(len(b))}, b...) }
+func vec8(b []byte) []byte  { return append([]byte{byte(len(b))}, b...) }
+
+// sequences of length 0..2 over pool, plus a few of length 3
+func seqs(pool int) [][]int {
+	out := [][]int{{}}
+	for a := 0; a < pool; a++ {
+		out = append(out, []int{a})
+		for b := 0; b < pool; b++ {
+			out = append(out, []int{a, b})
+		}
+	}
+	out = append(out, []int{0, 1, 2}, []int{1, 0, 0}, []int{0, 0, 1})
+	return out
+}
+
+func (rn *runner) listShapes() {
+	sni := []byte{0, 7, 0, 0, 4, 'a', '.', 'b', 'c'}
+	type variant struct {
+		name string
+		id   uint16
+		body func(seq []int) []byte
+	}
+	u16pool := func(pool []uint16, wrap func([]byte) []byte) func([]int) []byte {
+		return func(seq []int) []byte {
+			var vs []uint16
+			for _, i := range seq {
+				vs = append(vs, pool[i])
+			}
+			return wrap(u16list(vs))
+		}
+	}
+	share := func(i int) []byte {
+		switch i {
+		case 0: // GREASE, key_exchange of 1, 2 or 8 bytes
+			d := make([]byte, []int{1, 2, 8}[rn.r.Intn(3)])
+			return append([]byte{0x4a, 0x4a, 0, byte(len(d))}, d...)
+		case 1:
+			return append([]byte{0, 29, 0, 32}, make([]byte, 32)...)
+		case 2:
+			return append([]byte{0, 23, 0, 65}, make([]byte, 65)...)
+		}
+		return []byte{0x12, 0x34, 0, 2, 1, 2} // unregistered group
+	}
+	variants := []variant{
+		{"key_share", 51, func(seq []int) []byte {
+			var b []byte
+			for _, i := range seq {
+				b = append(b, share(i)...)
+			}
+			return vec16(b)
+		}},
+		{"supported_groups", 10, u16pool([]uint16{0x2a2a, 29, 23, 0x1234}, vec16)},
+		{"supported_versions", 43, u16pool([]uint16{0x3a3a, 0x0304, 0x0303, 0x0305}, vec8)},
+		{"signature_algorithms", 13, u16pool([]uint16{0x5a5a, 0x0403, 0x0804, 0x0000}, vec16)},
+		{"compress_certificate", 27, u16pool([]uint16{0x6a6a, 2, 1, 0x00ff}, vec8)},
+		{"psk_key_exchange_modes", 45, func(seq []int) []byte {
+			var b []byte
+			for _, i := range seq {
+				b = append(b, []byte{0x0b, 1, 0, 7}[i])
+			}
+			return vec8(b)
+		}},
+		{"alpn", 16, func(seq []int) []byte {
+			var b []byte
+			for _, i := range seq {
+				b = append(b, vec8([]byte([]string{"h2", "http/1.1", "h3", "x"}[i]))...)
+			}
+			return vec16(b)
+		}},
+	}
+	defaults := map[uint16][]byte{
+		10: vec16(u16list([]uint16{0x2a2a, 29, 23})), 13: vec16(u16list([]uint16{0x0403, 0x0804})),
+		43: vec8(u16list([]uint16{0x3a3a, 0x0304, 0x0303})), 45: {1, 1},
+		51: vec16(append(share(0), share(1)...)),
+	}
+	order := []uint16{10, 13, 43, 45, 51}
+	k := 0
+	for _, v := range variants {
+		for si, seq := range seqs(4) {
+			exts := [][]byte{extEnc(0x1a1a, nil), extEnc(0, sni), extEnc(23, nil)}
+			placed := false
+			for _, id := range order {
+				if id == v.id {
+					exts = append(exts, extEnc(id, v.body(seq)))
+					placed = true
+				} else {
+					exts = append(exts, extEnc(id, defaults[id]))
+				}
+			}
+			if !placed {
+				exts = append(exts, extEnc(v.id, v.body(seq)))
+			}
+			raw := helloFrom(exts)
+			k++
+			// a third of them also as correspondence cases
+			rn.rawCase("list-shape:"+v.name, fmt.Sprintf("list-shape/%s/%v", v.name, seq), allFlags()[k%8], raw, si%3 == 0 && len(raw) <= 300)
+		}
+	}
+}
